@@ -43,7 +43,7 @@ MAX_DEPTH = 7
 
 
 class Entry:
-    def __init__(self, eid: str, fn: Callable, group: str, args: Dict[str, Any], parse: bool, inplace: Optional[Callable], doc: str, ncanon: int, canon=()):
+    def __init__(self, eid: str, fn: Callable, group: str, args: Dict[str, Any], parse: bool, inplace: Optional[Callable], doc: str, ncanon: int, canon=(), no_scribble: bool = False):
         self.id = eid
         self.fn = fn
         self.group = group
@@ -53,16 +53,17 @@ class Entry:
         self.doc = doc
         self.ncanon = ncanon
         self.canon = list(canon)  # directed canonical argument sets (always part of the canonical calls)
+        self.no_scribble = no_scribble  # state probe / helper entry: its result is a dump of shared tables, never scribbled
 
 
 CATALOGUE: Dict[str, Entry] = {}
 
 
-def entry(eid: str, group: str, args: Optional[Dict[str, Any]] = None, parse: bool = False, inplace: Optional[Callable] = None, doc: str = "", ncanon: int = 3, canon=()):
+def entry(eid: str, group: str, args: Optional[Dict[str, Any]] = None, parse: bool = False, inplace: Optional[Callable] = None, doc: str = "", ncanon: int = 3, canon=(), no_scribble: bool = False):
     def deco(fn):
         if eid in CATALOGUE:
             raise HarnessError(f"duplicate catalogue entry {eid}")
-        CATALOGUE[eid] = Entry(eid, fn, group, args or {}, parse, inplace, doc or (fn.__doc__ or "").strip(), ncanon, canon)
+        CATALOGUE[eid] = Entry(eid, fn, group, args or {}, parse, inplace, doc or (fn.__doc__ or "").strip(), ncanon, canon, no_scribble)
         return fn
 
     return deco
@@ -318,67 +319,62 @@ def _scribble_container(o):
         pass
 
 
-def scribble(roots: List[Any]) -> int:
-    """Mutate in place everything mutable a caller got hold of: every buffer (bitarray, bytearray, numpy, array) reachable
-    from the roots; and the lists / dicts / sets that are a root, an element of a root container or a direct attribute of a
-    returned library object (append / add a key).  Returns the number of objects touched."""
+_SCALARS = (type(None), bool, int, float, str, bytes, enum.Enum)
+
+
+def _flat(o) -> bool:
+    """list / tuple made of scalars and buffers only"""
+    return isinstance(o, (list, tuple)) and all(isinstance(x, _SCALARS) or _is_buffer(x) for x in o)
+
+
+def scribble(result: Any, arguments: List[Any], result_in_scope: bool = True) -> int:
+    """In-place damage of what is unambiguously the caller's own (returns the number of objects touched):
+
+    (1) every argument object the caller built and passed (tracked buffers: bitarray / bytearray / numpy array; tracked
+        dict / list arguments get a key / an element added);
+    (2) the RESULT ITSELF when the entry point returns a mutable buffer as its value: a bitarray / bytearray / numpy array /
+        array; or a list / tuple whose elements are scalars or such buffers (then every buffer element, and the list itself
+        by an appended element); inside a returned tuple / list also the elements that are themselves such flat lists /
+        tuples (one level: `(status, word)`, `(data_bits, all_bits, cs_bits)`, `([register values], digest)`).
+
+    Never touched: attributes of returned objects, dict / set results, containers inside returned objects, elements of a
+    returned container that are objects, anything nested deeper, and results of entries marked no_scribble."""
     seen: set = set()
     count = [0]
 
-    def buffers_only(o, depth):
-        if id(o) in seen or depth > MAX_DEPTH or o is None or isinstance(o, (bool, int, float, str, bytes, enum.Enum)):
-            return
-        seen.add(id(o))
-        if _is_buffer(o):
+    def buf(o):
+        if id(o) not in seen:
+            seen.add(id(o))
             _scribble_buffer(o, count[0])
             count[0] += 1
-        elif isinstance(o, (tuple, list, set, frozenset)):
-            for v in list(o):
-                buffers_only(v, depth + 1)
-        elif isinstance(o, dict):
-            for v in list(o.values()):
-                buffers_only(v, depth + 1)
-        elif _is_lib_obj(o) or _is_kaitai(o):
-            d = getattr(o, "__dict__", None)
-            if isinstance(d, dict):
-                kaitai = _is_kaitai(o)
-                for k, v in list(d.items()):
-                    if not (kaitai and k.startswith("_")):
-                        buffers_only(v, depth + 1)
 
-    def container(o):
-        if isinstance(o, (list, dict, set)) and ("c", id(o)) not in seen:
-            seen.add(("c", id(o)))
+    def flat(o):
+        for x in o:
+            if _is_buffer(x):
+                buf(x)
+        if isinstance(o, list) and id(o) not in seen:
+            seen.add(id(o))
             _scribble_container(o)
             count[0] += 1
 
-    def top(o, depth=0):
-        # depth 0: the entry's result (a tuple there is the entry's packaging of several results), depth 1: a result or an
-        # element of the result container, depth 2: elements of a returned container (scribbled themselves, not entered)
-        if isinstance(o, (tuple, list)):
-            if depth < 2:
-                for v in list(o):
-                    top(v, depth + 1)
-            buffers_only(o, 0)
-            container(o)
-        elif isinstance(o, dict):
-            if depth < 2:
-                for v in list(o.values()):
-                    top(v, depth + 1)
-            buffers_only(o, 0)
-            container(o)
-        elif (_is_lib_obj(o) or _is_kaitai(o)) and not isinstance(o, enum.Enum):
-            d = getattr(o, "__dict__", None)
-            buffers_only(o, 0)
-            if isinstance(d, dict):
-                for k, v in list(d.items()):
-                    if not k.startswith("_"):
-                        container(v)
-        else:
-            buffers_only(o, 0)
-
-    for r in roots:
-        top(r)
+    for a in arguments:
+        if _is_buffer(a):
+            buf(a)
+        elif isinstance(a, (list, dict)) and id(a) not in seen:
+            seen.add(id(a))
+            _scribble_container(a)
+            count[0] += 1
+    if result_in_scope:
+        if _is_buffer(result):
+            buf(result)
+        elif isinstance(result, (list, tuple)):
+            for x in list(result):
+                if _is_buffer(x):
+                    buf(x)
+                elif _flat(x):
+                    flat(x)
+            if _flat(result):
+                flat(result)
     return count[0]
 
 
@@ -415,7 +411,7 @@ def run_calls_here(calls: List[dict]) -> List[dict]:
             out.append(_run_one(e, c["a"])[0])
         elif op == "scribble_repeat":
             r1, res, T = _run_one(e, c["a"])
-            n = scribble([res] + T.buffers())
+            n = scribble(res, T.buffers(), result_in_scope=not e.no_scribble)
             r2, _, _ = _run_one(e, c["a"])
             out.append({"multi": [r1, r2], "touched": n})
         elif op == "reuse":
